@@ -17,7 +17,7 @@ cp -r /verif/harness $H
 ln -s /verif/spec $VR/spec; cp /verif/known_findings.txt $VR/; cp /verif/properties.jsonl $VR/
 sed -i "s|=> /repo|=> $WT|" $H/go.mod
 cp $WT/go.sum $H/go.sum
-export GOPROXY=off GOFLAGS=-mod=mod GOWORK=off VERIF_ROOT=$VR
+export GOPROXY=off GOFLAGS=-mod=mod GOWORK=off VERIF_ROOT=$VR VERIF_HARNESS=$H
 if ! (cd $H && go build -tags verif -o $VR/bin/check ./cmd/check 2>$VR/out/build.err); then
   echo "$SEED $PROP DETECTED (harness does not build against the change)"; cat $VR/out/build.err | head -5
 else
